@@ -250,7 +250,7 @@ func (g *gen) block(n int) {
 func (g *gen) stmt() {
 	g.budget--
 	g.yieldStmt()
-	max := 30
+	max := 31
 	if g.depth >= 3 {
 		max = 9 // only simple statements when nested deeply
 	}
@@ -469,6 +469,25 @@ func (g *gen) stmt() {
 		}
 		g.w("}")
 		g.depth--
+	case 31:
+		// shifts by constant counts around the operand width, overlapping copies of struct elements
+		g.kind("width-shift-overlap-copy")
+		switch g.ir(0, 5, "wsform") {
+		case 0:
+			g.w("a3 = a3<<%d | %d", g.pick2("wsc", 31, 32, 33), g.ir(1, 9, "wsor"))
+		case 1:
+			g.w("a3 = a3 >> %d", g.pick2("wsc2", 31, 32, 33))
+			g.w("a2 = a2 >> %d", g.pick2("wsc3", 15, 16, 17))
+		case 2:
+			g.w("a1 = a1 << %d", g.pick2("wsc4", 7, 8, 9))
+			g.w("a0 = a0 >> %d", g.pick2("wsc5", 7, 8, 32))
+		case 3:
+			g.w("{\n%s\tps := []P{p, *pp, {a: 5}, {a: 6, c: [2]int{1, 2}}}\n%s\tcopy(ps[1:], ps[:3])\n%s\ti3 = lim(ps[0].a + ps[1].a*3 + ps[2].a*5 + ps[3].a*7 + ps[3].c[1])\n%s}", ind(g), ind(g), ind(g), ind(g))
+		case 4:
+			g.w("{\n%s\tps := []P{p, *pp, {a: 5}, {a: 6, c: [2]int{1, 2}}}\n%s\tcopy(ps, ps[1:])\n%s\tqs := append(ps[:1], ps[0:3]...)\n%s\ti3 = lim(ps[0].a + ps[1].a*3 + ps[2].a*5 + ps[3].a*7 + qs[1].a*11 + len(qs))\n%s}", ind(g), ind(g), ind(g), ind(g), ind(g))
+		default:
+			g.w("{\n%s\tas := [][2]int{{1, 2}, {3, 4}, {i0, 6}, {7, 8}}\n%s\tcopy(as[2:], as[1:])\n%s\ti3 = lim(as[0][0] + as[1][1]*3 + as[2][0]*5 + as[3][1]*7)\n%s}", ind(g), ind(g), ind(g), ind(g))
+		}
 	case 28:
 		// operands of an index or selector target are evaluated exactly once by op-assignment
 		// and inc/dec; nx/kx/getp count their calls. The right-hand sides are literals: no
@@ -752,4 +771,9 @@ func (g *gen) genericStmt() {
 	default:
 		g.w("{\n%s\tpr := gpair[string, int]{s0, i0}\n%s\tvar e interface{} = pr\n%s\tif _, ok := e.(gpair[string, int]); ok {\n%s\t\ti3 = lim(i3 + 1)\n%s\t}\n%s\tif _, ok := e.(gpair[int, string]); ok {\n%s\t\ti3 = -1\n%s\t}\n%s}", ind(g), ind(g), ind(g), ind(g), ind(g), ind(g), ind(g), ind(g), ind(g))
 	}
+}
+
+// pick2 draws one of a few integers.
+func (g *gen) pick2(label string, xs ...int) int {
+	return xs[g.ir(0, len(xs)-1, label)]
 }
